@@ -48,6 +48,25 @@ def prepare(case, fault=None, record_sites=True, keep_args=True, policy="fresh")
         spec.x0 = x0
     else:
         x0 = None if spec.x0 is None else np.copy(spec.x0)
+    if case.get("x0_near") and x0 is not None:
+        # components strictly inside the box but within a hair (one ulp .. 1e-9 relative) of a finite bound
+        r3 = rng_for("x0near", *case["gseed"])
+        x0 = np.array(x0, dtype=float, copy=True)
+        for j in range(spec.n):
+            l, u = spec.var_lb[j], spec.var_ub[j]
+            if l == u or r3.random() < 0.3:
+                continue
+            up = np.isfinite(u) and (r3.random() < 0.6 or not np.isfinite(l))
+            if not up and not np.isfinite(l):
+                continue
+            b, other = (u, l) if up else (l, u)
+            if r3.random() < 0.4:
+                v = float(np.nextafter(b, other))
+            else:
+                v = b + (-1.0 if up else 1.0) * float(10.0 ** r3.uniform(-14, -9)) * max(1.0, abs(b))
+            if l < v < u:
+                x0[j] = v
+        spec.x0 = x0
     if case.get("x0_out") and x0 is not None:
         # a start point that violates some variable bounds (allowed for properties that do not assume an in-bounds start)
         r2 = rng_for("x0out", *case["gseed"])
